@@ -343,6 +343,12 @@ def main():
                 jobs.append(("sweep:%s" % n, mx, desc))
                 nsweep += 1
         rep.cov["typed_attribute_sweep_inputs"] = nsweep
+        ninc = 0
+        for n, x in bases[:2]:
+            for desc, mx in M.include_sweep(x):
+                jobs.append(("include-sweep:%s" % n, mx, desc))
+                ninc += 1
+        rep.cov["include_sweep_inputs"] = ninc
         rng = C.rng_for(rep.seed, "c09")
         for i in range(nmut):
             n, x = bases[rng.randrange(len(bases))]
